@@ -651,6 +651,9 @@ pub fn run_c14(a: &Args) {
     reqs.push("c14.issued cfgexp=4 wait=6".into());
     reqs.push("c14.issued cfgexp=600 wait=1".into());
     reqs.push("c14.deadline timeout=2000 proxy=0 header=none proto=none style=flood".into());
+    // a configured timeout of zero is a deadline like any other: the connection is closed at once
+    reqs.push("c14.deadline timeout=0 proxy=0 header=none proto=none style=silent".into());
+    reqs.push("c14.deadline timeout=0 proxy=1 header=none proto=none style=silent".into());
     // the secret as an operator hands it over in the environment: number- or boolean-looking texts are keys like any other
     let _ = env_secret_cfgs();
     for k in 0..ENV_SECRETS.len() { reqs.push(format!("c14.cookie cfgexp=21600 age=0 same=1 envsec={k}")); }
